@@ -9,6 +9,10 @@
 import Valida.Path
 import ValidaSpec.Walk
 import ValidaProofs.Lemmas.Basic
+import ValidaProofs.C02
+import ValidaProofs.Lemmas.C03Walk
+import ValidaProofs.Lemmas.C03Step
+import ValidaProofs.Lemmas.C03Prim
 namespace ValidaProofs
 open Valida ValidaGen ValidaSpec
 
@@ -24,20 +28,28 @@ def StepsOk (parts : List Part) : Prop := ∀ p ∈ parts, ∀ node, ∃ kvs, st
 
 /-! ### the frontier walk is the depth-first walk -/
 
+/-- under `StepsOk`, `childrenOf` is what `stepNode` returns -/
+theorem stepsOk_childrenOf (parts : List Part) (hs : StepsOk parts) :
+    ∀ p ∈ parts, ∀ node, stepNode p node = .ok (childrenOf p node) := by
+  intro p hp node
+  obtain ⟨kvs, h⟩ := hs p hp node
+  simp [childrenOf, h]
+
 /-- lock-step invariant of the loop: `data` and `concrete_paths` always have the same length, so
     the index `concrete_paths[datum_idx]` never fails -/
 theorem C03_lockstep (parts : List Part) (first : Bool) (data : List PyVal) (paths : List (List PyVal))
     (d' : List PyVal) (p' : List (List PyVal))
     (hlen : first = true ∨ data.length = paths.length)
     (h : walkParts parts first data paths = .ok (d', p')) (hne : parts ≠ []) : d'.length = p'.length := by
-  sorry
+  exact walkParts_length parts first data paths d' p' (Or.inl hne) h
 
 /-- the level-by-level walk with its two parallel lists returns exactly the depth-first walk:
     same nodes, same order, each with the keys actually followed -/
 theorem C03_walk (parts : List Part) (doc : PyVal) (hne : parts ≠ []) (hs : StepsOk parts) :
     ∃ nodes paths, walkParts parts true [doc] [] = .ok (nodes, paths) ∧
       nodes.zip paths = walk childrenOf parts doc [] ∧ nodes.length = paths.length := by
-  sorry
+  obtain ⟨nodes, paths, h, hl, hz⟩ := walkParts_true childrenOf parts hne (stepsOk_childrenOf parts hs) doc
+  exact ⟨nodes, paths, h, hz, hl⟩
 
 /-- … and therefore `get_data(return_paths=True)` of a modifier-free path is the walk, presented as
     a list (non-concrete) or as the single node / `None` (concrete) -/
@@ -48,29 +60,38 @@ theorem C03_get_data (p : Path) (doc : PyVal) (hne : p.parts ≠ []) (hs : Steps
        if sel.isEmpty then .ok (if p.concrete then .none else .list [])
        else if p.concrete then (match sel.head? with | some v => .ok v | none => .error .indexError)
        else .ok (.list sel)) := by
-  sorry
+  obtain ⟨nodes, paths, h, hz, hl⟩ := C03_walk p.parts doc hne hs
+  rw [← hz]
+  exact getData_of_walk p doc nodes paths hne hsrc hdoc hd hm h hl
 
 /-! ### a part that does not apply matches nothing; resolution never raises -/
 
 /-- scalars, empty containers and containers of the wrong kind: no match, no exception -/
 theorem C03_inapplicable (p : Part) (node : PyVal) :
     (∀ xs, node ≠ .list xs) → (∀ kvs, node ≠ .dict kvs) → stepNode p node = .ok [] := by
-  sorry
+  intro h1 h2
+  apply stepNode_of_filter_typeError
+  apply filter_of_ofPy_error
+  cases node with
+  | list xs => exact absurd rfl (h1 xs)
+  | dict kvs => exact absurd rfl (h2 kvs)
+  | _ => rfl
 theorem C03_inapplicable_empty (p : Part) : stepNode p (.list []) = .ok [] ∧ stepNode p (.dict []) = .ok [] := by
-  sorry
+  exact ⟨stepNode_of_filter_typeError _ _ (filter_of_ofPy_error _ _ _ rfl),
+    stepNode_of_filter_typeError _ _ (filter_of_ofPy_error _ _ _ rfl)⟩
 theorem C03_inapplicable_kind (p : Part) (xs : List PyVal) (kvs : List (PyVal × PyVal)) :
     (p.kind = .map → stepNode p (.list xs) = .ok []) ∧ (p.kind = .list → stepNode p (.dict kvs) = .ok []) := by
-  sorry
+  exact ⟨stepNode_map_list p xs, stepNode_list_dict p kvs⟩
 
 /-- a step raises nothing but the model's pseudo-outcome -/
 theorem C03_step_total (p : Part) (node : PyVal) : ∀ e, stepNode p node = .error e → e = .unmodelled := by
-  sorry
+  exact stepNode_error p node
 
 /-- matched children are items of the node: keys and values at the same positions, in order -/
 theorem C03_step_items (p : Part) (node : PyVal) (kvs : List (PyVal × PyVal)) (h : stepNode p node = .ok kvs) :
     (∀ xs, node = .list xs → kvs.Sublist ((rangeVals xs.length).zip xs)) ∧
     (∀ items, node = .dict items → kvs.Sublist items) := by
-  sorry
+  exact stepNode_items p node kvs h
 
 /-! ### primitive parts -/
 
@@ -79,27 +100,37 @@ theorem C03_prim_str (s : String) (p : Part) (hp : Part.ofPrim (.str s) = .ok p)
     (kvs : List (PyVal × PyVal)) (hne : kvs ≠ []) (xs : List PyVal) :
     stepNode p (.dict kvs) = .ok (kvs.filter (fun kv => PyVal.pyEq kv.1 (.str s))) ∧
     stepNode p (.list xs) = .ok [] := by
-  sorry
+  rw [ofPrim_str] at hp
+  cases hp
+  exact ⟨stepNode_keyPart_dict _ kvs, stepNode_keyPart_list _ xs⟩
 
 /-- an integer part matches the mapping children whose key equals it, or the list child at that index -/
 theorem C03_prim_int (n : Int) (p : Part) (hp : Part.ofPrim (.int n) = .ok p)
     (kvs : List (PyVal × PyVal)) (hne : kvs ≠ []) (xs : List PyVal) (hxs : xs ≠ []) :
     stepNode p (.dict kvs) = .ok (kvs.filter (fun kv => PyVal.pyEq kv.1 (.int n))) ∧
     stepNode p (.list xs) = .ok (((rangeVals xs.length).zip xs).filter (fun kv => PyVal.pyEq kv.1 (.int n))) := by
-  sorry
+  rw [ofPrim_int] at hp
+  cases hp
+  exact ⟨stepNode_keyOrIndexPart_dict _ kvs, stepNode_keyOrIndexPart_list _ xs⟩
 
 /-- other primitives are refused by the path constructor -/
 theorem C03_prim_refused (v : PyVal)
     (h : (∀ s, v ≠ .str s) ∧ (∀ k, v ≠ .float k) ∧ (∀ n, v ≠ .int n) ∧ (∀ b, v ≠ .bool b)) :
     Part.ofPrim v = .error .typeError := by
-  sorry
+  exact ofPrim_other v h
 
 /-- a concrete path selects at most one node of a document whose mappings have pairwise distinct keys
     (one level: a primitive part matches at most one child) -/
 theorem C03_prim_at_most_one (v : PyVal) (p : Part) (hp : Part.ofPrim v = .ok p)
     (kvs : List (PyVal × PyVal)) (hd : DistinctKeys kvs)
     (res : List (PyVal × PyVal)) (h : stepNode p (.dict kvs) = .ok res) : res.length ≤ 1 := by
-  sorry
+  obtain ⟨hv, rfl | rfl⟩ := ofPrim_cases v p hp
+  · rw [stepNode_keyPart_dict] at h
+    cases h
+    exact filter_key_prim_le_one v hv kvs hd
+  · rw [stepNode_keyOrIndexPart_dict] at h
+    cases h
+    exact filter_key_prim_le_one v hv kvs hd
 
 /-! ### non-vacuity -/
 
